@@ -1,7 +1,9 @@
 import os
 
-CVC5 = "/usr/bin/cvc5"      # native bit-vector cvc5 (NOT the bv-as-int shim of the driver's "cvc5" solver)
-SMT_FLAGS = ["--cvc5", "--slice-formula", "--external-smt2-solver", CVC5, "--no-standard-checks"]
+HERE = os.path.dirname(os.path.abspath(__file__))
+# z3 + native bit-vector cvc5 side by side (NOT the bv-as-int shim of the driver's "cvc5" solver), see the script
+SMT = os.path.join(HERE, "..", "common", "hash", "smt-portfolio.sh")
+SMT_FLAGS = ["--cvc5", "--slice-formula", "--external-smt2-solver", os.path.normpath(SMT), "--no-standard-checks"]
 
 # name, adapter, block, state bytes, ctx bytes (for unwind), alignment offsets worth distinguishing, defs
 ALGS = {
